@@ -50,9 +50,9 @@ type Plan struct {
 }
 
 var rec = ev.New("C19", "c19.churn",
-	"plans of 3..25 operations (subscribe, cancel with/without waiting for the handler to exit, stall a reader, broadcast, bursts of 3-120 broadcasts back to back, several broadcasters sending concurrently, park/release deliveries at the verif hook's yield point, pause) over up to 5 clients of one sse.Handler, each plan executed in its own child process (a panic in a delivery goroutine cannot be recovered) built with -race; "+
+	"plans of 3..25 operations (subscribe, cancel with/without waiting for the handler to exit, stall a reader, broadcast, bursts of 3-120 broadcasts back to back, several broadcasters sending concurrently, storms of 200-3000 broadcasts while 1-8 goroutines keep connecting and disconnecting clients, park/release deliveries at the verif hook's yield point, pause) over up to 5 clients of one sse.Handler, each plan executed in its own child process (a panic in a delivery goroutine cannot be recovered) built with -race; "+
 		"oracle: the child survives with no panic/race/deadlock, every Send returns within 2 s, and every client that was registered and neither cancelled nor stalled receives every event broadcast while it was registered (as a multiset: order between back-to-back broadcasts is not promised). "+
-		"Non-trivial = the plan cancels a client between a broadcast whose delivery is parked and its release (the 'unregistered before delivery' schedule, forced), broadcasts while a client is stalled, or has several broadcasters send at once to two or more clients; distinct by plan")
+		"Non-trivial = the plan cancels a client between a broadcast whose delivery is parked and its release (the 'unregistered before delivery' schedule, forced), broadcasts while a client is stalled, has several broadcasters send at once to two or more clients, or broadcasts during client churn; distinct by plan")
 
 // ---------- the child: executes one plan ----------
 
@@ -231,6 +231,67 @@ func runPlan(p Plan) (result string) {
 			case <-time.After(5 * time.Second):
 				return fmt.Sprintf("fail:step %d: concurrent Sends blocked for more than 5s", si)
 			}
+		case "storm":
+			// browsers come and go (each reload drops and reopens the event stream) while reloads
+			// are broadcast back to back: st.Client churning goroutines, st.N broadcasts
+			stop := make(chan struct{})
+			var cw sync.WaitGroup
+			for g := 0; g < max(1, st.Client); g++ {
+				cw.Add(1)
+				go func() {
+					defer cw.Done()
+					for {
+						select {
+						case <-stop:
+							return
+						default:
+						}
+						ctx, cancel := context.WithCancel(context.Background())
+						c := &client{first: make(chan struct{}), cancel: cancel, exited: make(chan struct{}), header: http.Header{}}
+						req := httptest.NewRequest("GET", "/_templ/reload/events", nil).WithContext(ctx)
+						go func() {
+							defer close(c.exited)
+							h.ServeHTTP(c, req)
+						}()
+						select {
+						case <-c.first:
+						case <-stop:
+						case <-time.After(10 * time.Second):
+						}
+						cancel()
+						select {
+						case <-c.exited:
+						case <-stop:
+						case <-time.After(10 * time.Second):
+						}
+					}
+				}()
+			}
+			for k := 0; k < max(2, st.N); k++ {
+				sendN++
+				name := fmt.Sprintf("reload-%d", sendN)
+				for i := range clients {
+					if active(i) {
+						expect[i] = append(expect[i], name)
+					}
+				}
+				done := make(chan struct{})
+				go func() { h.Send("message", name); close(done) }()
+				select {
+				case <-done:
+				case <-time.After(5 * time.Second):
+					close(stop)
+					return fmt.Sprintf("fail:step %d: with clients connecting and disconnecting, Send blocked for more than 5s (broadcast %d of the storm)", si, k)
+				}
+			}
+			close(stop)
+			churnDone := make(chan struct{})
+			go func() { cw.Wait(); close(churnDone) }()
+			select {
+			case <-churnDone:
+			case <-time.After(25 * time.Second):
+				return fmt.Sprintf("fail:step %d: clients that connected during the broadcasts could not register or leave within 25s", si)
+			}
 		case "park":
 			gateMu.Lock()
 			if gate == nil {
@@ -362,13 +423,17 @@ func init() {
 }
 
 var genStep = rapid.Custom(func(t *rapid.T) Step {
-	op := rapid.SampledFrom([]string{"sub", "sub", "sub", "cancel", "cancel", "stall", "send", "send", "send", "park", "release", "pause", "burst", "cosend"}).Draw(t, "op")
+	op := rapid.SampledFrom([]string{"sub", "sub", "sub", "cancel", "cancel", "stall", "send", "send", "send", "park", "release", "pause", "burst", "cosend", "storm"}).Draw(t, "op")
 	st := Step{Op: op, Client: rapid.IntRange(0, 4).Draw(t, "client"), Wait: rapid.Bool().Draw(t, "wait")}
 	if op == "burst" {
 		st.N = rapid.SampledFrom([]int{3, 9, 12, 40, 120}).Draw(t, "burst")
 	}
 	if op == "cosend" {
 		st.N = rapid.IntRange(2, 6).Draw(t, "senders")
+	}
+	if op == "storm" {
+		st.N = rapid.SampledFrom([]int{200, 1000, 3000}).Draw(t, "stormSends")
+		st.Client = rapid.IntRange(1, 8).Draw(t, "churners")
 	}
 	return st
 })
@@ -410,6 +475,8 @@ func nontrivial(p Plan) bool {
 			if len(live) > 1 {
 				return true
 			}
+		case "storm":
+			return true
 		case "send", "burst":
 			if parked && len(live) > 0 {
 				sentParked = true
